@@ -289,7 +289,7 @@ def run(ctx):
     install(ctx)
     thorough = ctx.tier == "thorough"
     rng = ctx.rng("c07")
-    nm = (20000 if thorough else 1500)
+    nm = (200000 if thorough else 1500)
     means = numpy.sort(10 ** rng.uniform(-6, 5, nm))
     means = numpy.concatenate([means, [1e-6, 1e-3, 0.5, 1.0, 2.5, 10.0, 100.0, 1e3, 1e4, 1e5]])
     # ---- primitives on the grid + identity
@@ -342,7 +342,7 @@ def run(ctx):
                             observed=arr[k:k + 2], tags={"law": law, "monotone": True})
         ctx.count(len(ms) * 2)
     # ---- end to end
-    ne = 6000 if thorough else 320
+    ne = 60000 if thorough else 320
     for j in range(ne):
         if not ctx.mine(j):
             continue
@@ -374,7 +374,7 @@ def run(ctx):
                 ctx.count(2)
                 ctx.nt(digest(("big", n_big, fac)))
     # ---- empirical multisets with heavy ties (primitive)
-    for j in range(3000 if thorough else 200):
+    for j in range(30000 if thorough else 200):
         if not ctx.mine(j):
             continue
         r = ctx.rng("c07emp", j)
